@@ -265,6 +265,22 @@ def ens_apr(job, pr_id, out, G):
 
 
 def extra(rep, tier, seed, budget):
+    from pyvc import cli as _cli
+    from specs import c10 as _m07
+    _e07 = _m07.base_env()
+    for _c in _m07.contracts(_e07):
+        if 'handle_comments' in _c.label:
+            _c.label = _c.label + ' [C12 every comment is scanned for options]'
+            _cli.handle_function(rep, _m07, _e07, _c, budget, _cli.load_lock().get('C12', {}))
+    rep.trusted.extend(_e07.trusted)
+    from pyvc import cli as _cli
+    from specs import c19 as _m19
+    _e19 = _m19.base_env()
+    for _c in _m19.contracts(_e19):
+        if 'handle_declined_pull_request' in _c.label:
+            _c.label = _c.label + ' [C12 a declined pull request never proceeds]'
+            _cli.handle_function(rep, _m19, _e19, _c, budget, _cli.load_lock().get('C12', {}))
+    rep.trusted.extend(_e19.trusted)
     from specs import shared_facts as _sf
     _sf.add_facts(rep, _sf.init_settings_fresh(), 'Reactor.init_settings (whole option registry)')
     from bounded import integrate as _integ
